@@ -81,7 +81,7 @@ def addOp (kv : String × Json) : Json := .obj [("op", .str "add"), ("path", .st
 theorem applyGuarded_add (m : List (String × Json)) (k : String) (v : Json) (h : ordinaryName k = true) :
     Lib.applyGuarded (.obj m) (addOp (k, v)) = .ok (.obj (Json.setMember k v m)) := by
   have hs := splitPointer_ordinary k h
-  have hg : Lib.targetsOwnSource (addOp (k, v)) = false := by
+  have hg : Lib.targetsOwnSource (addOp (k, v)) (.obj m) = false := by
     simp [Lib.targetsOwnSource, Lib.guardString, addOp, Json.get?, Json.lookup]
   have hop : Lib.opString (addOp (k, v)) "op" = "add" := by simp [Lib.opString, addOp, Json.get?, Json.lookup]
   have hpath : Lib.opString (addOp (k, v)) "path" = "/" ++ k := by simp [Lib.opString, addOp, Json.get?, Json.lookup]
